@@ -47,6 +47,7 @@ def gen_params(rng, stratum):
         "n_chrom": rng.choice([1, 1, 2]),
         "chrom_len": rng.choice([1500, 3000, 5000]),
         "n_var": rng.randint(4, 25),
+        "pos1_prob": 0.15,
         "kinds": kinds,
         "samples": samples,
         "depth": rng.choice([2, 4, 8, 15, 30, 60]),
